@@ -174,6 +174,21 @@ class LockScope(nfa.Spec):
         return st
 
 
+class _HandOutOnlyLive(nfa.Spec):
+    """Some(..) is returned only on paths on which the entry's liveness query said `running`"""
+    init = ("unknown",)
+
+    def step(self, st, label):
+        ev = label.split("@")[0]
+        if ev in ("bool:live=1", "bool:dead=0"):
+            return ("live",)
+        if ev in ("bool:live=0", "bool:dead=1"):
+            return ("dead",)
+        if ev == "retval:Some" and st[0] != "live":
+            return nfa.Err("R08.3: an address is handed out on a path on which the entry was not found running (%s)" % st[0])
+        return st
+
+
 class RegisterSpec(nfa.Spec):
     """insert only when no entry / entry stopped; otherwise Err without insert"""
     init = ("s0",)
@@ -401,7 +416,19 @@ def check_cfg(ctx, fx, cfg):
                         ho_ = hb_.origins([0])
                         gen_ = h_.get("generics") or []
                         return bool(ho_) and all(x.kind == "call" and (hb_.call_at(x).get("callee") or "").endswith("::of") and (hb_.call_at(x).get("gargs") or [None])[0] == (gen_[0] if gen_ else None) for x in ho_)
-                    kok = bool(kr) and all(o.kind == "call" and is_key(b.call_at(o)) for o in kr)
+                    def key_origin_ok(body_, fn_, o, depth=0):
+                        if o.kind == "call":
+                            return is_key(body_.call_at(o))
+                        if o.kind == "upvar" and depth < 3 and not [e for e in o.proj if e != "*"]:
+                            # computed before the async block / closure and moved in (`let key = TypeId::of::<Self>(); async move { .. }`)
+                            cap = graph.capture_operand(fx, fn_, o.site)
+                            if cap is not None:
+                                pf, pop = cap
+                                pb_ = ctx.body(fx, pf)
+                                pos = pb_.origins(pop)
+                                return bool(pos) and all(key_origin_ok(pb_, pf, x, depth + 1) for x in pos)
+                        return False
+                    kok = bool(kr) and all(key_origin_ok(b, f, o) for o in kr)
                     ctx.require(kok, "R08.2", inst + ":key:" + t["callee"].split("::")[-1], "the registry key is not TypeId::of the service type", fn=f["def"], site=t["l"])
         judged.add(short)
         if short == "register":
@@ -441,6 +468,24 @@ def check_cfg(ctx, fx, cfg):
                     cond = b.origins(thens[0]["args"][0], through_calls=False)
                     ok = bool(cond) and all(o.kind == "call" and call_liveness(b.call_at(o)) == "live" for o in cond)
                     names = names + ["(live).then"]
+            if not ok:
+                # any other spelling of the same pipeline, seen with private helpers (`peek(&registry, |a| ..)`) inlined
+                ib = inline.body(ctx, fx, f, inline.not_public)
+                gets = [x for _, x in ib.normal_calls() if is_mapop(x) and x["callee"].endswith(("::get", "::get_mut"))]
+                ok = bool(gets) and yields_only_live(ctx, fx, ib, ib.origins([0], through_calls=False))
+                if ok:
+                    names = names + ["(live-only pipeline)"]
+            if not ok:
+                # spelled as control flow: `if addr.running() { Some(addr.clone()) } else { None }` — on every path that returns
+                # Some(..) the entry's running() was found true
+                somes = nfa.edges_labelled(n, "retval:Some")
+                gets = [x for _, x in b.normal_calls() if is_mapop(x) and x["callee"].endswith(("::get", "::get_mut"))]
+                if somes and gets:
+                    hv, hps = nfa.check(n, _HandOutOnlyLive())
+                    ctx.count_nfa({}, hps)
+                    ok = not hv
+                    if ok:
+                        names = names + ["(Some only on the running() == true path)"]
             ctx.require(ok, "R08.3", inst, "try_from_registry must hand out the registered address only behind the `running` filter: pipeline %s" % names, fn=f["def"], site=f["loc"], detail=names)
         elif short == "already_running":
             lives = []
@@ -494,6 +539,84 @@ def filter_is_running(ctx, fx, b, t):
     return False
 
 
+def _closure_of(ctx, fx, b, operand):
+    """the crate-local closure / function a callable operand denotes (literal or fn item), or None"""
+    if operand.get("k") == "const" and operand.get("fn") in fx.fns:
+        return fx.fns[operand["fn"]]
+    for o in b.origins(operand):
+        if o.kind == "agg" and not o.proj:
+            st = b.blocks[o.site[0]]["s"][o.site[1]]
+            c = fx.fn(st["r"].get("def") or "")
+            if c is not None and st["r"].get("ak") == "closure":
+                return c
+    return None
+
+
+def yields_only_live(ctx, fx, b, origs, depth=0):
+    """is this Option<address> `Some` only for an entry whose `running()` was just found true?  A small expression grammar
+    over the combinator pipeline (looking into the closures it is given):
+        filter(X, running) | cloned / copied / map(clone-like) / inspect (Y live-only) | and_then(X, C) , map(X, C).flatten()
+        with C's result live-only | cond.then(..) / then_some(..) with cond = running() of the entry"""
+    if depth > 6 or not origs:
+        return False
+    for o in origs:
+        if o.kind == "agg" and not o.proj and b.blocks[o.site[0]]["s"][o.site[1]]["r"].get("variant") == "None":
+            continue  # hands out nothing
+        if o.kind != "call" or o.proj:
+            return False
+        t = b.call_at(o)
+        c = t.get("callee") or ""
+        nm = c.split("::")[-1]
+        if c.endswith("FromResidual::from_residual"):
+            continue  # the `?` exit: None
+        if nm == "filter" and len(t["args"]) == 2 and filter_is_running(ctx, fx, b, t):
+            continue
+        if nm in ("then", "then_some") and (t.get("argtys") or [""])[0] == "bool":
+            cond = b.origins(t["args"][0], through_calls=False)
+            if cond and all(x.kind == "call" and call_liveness(b.call_at(x)) == "live" for x in cond):
+                continue
+            return False
+        if nm in ("cloned", "copied", "inspect", "flatten") and t["args"]:
+            if nm == "flatten":
+                # map(X, C).flatten(): C's own result must be live-only
+                inner = b.origins(t["args"][0], through_calls=False)
+                okf = bool(inner)
+                for x in inner:
+                    ti = b.call_at(x) if x.kind == "call" else None
+                    if ti is None or not (ti.get("callee") or "").endswith("::map") or len(ti["args"]) != 2:
+                        okf = False
+                        break
+                    cl = _closure_of(ctx, fx, b, ti["args"][1])
+                    if cl is None:
+                        okf = False
+                        break
+                    cb = ctx.body(fx, cl)
+                    if not yields_only_live(ctx, fx, cb, cb.origins([0], through_calls=False), depth + 1):
+                        okf = False
+                        break
+                if okf:
+                    continue
+                return False
+            if yields_only_live(ctx, fx, b, b.origins(t["args"][0], through_calls=False), depth + 1):
+                continue
+            return False
+        if nm == "map" and len(t["args"]) == 2:
+            a = t["args"][1]
+            clone_like = a.get("k") == "const" and (a.get("fn") or "").endswith(("::clone", "::to_owned"))
+            if clone_like and yields_only_live(ctx, fx, b, b.origins(t["args"][0], through_calls=False), depth + 1):
+                continue
+            return False
+        if nm == "and_then" and len(t["args"]) == 2:
+            cl = _closure_of(ctx, fx, b, t["args"][1])
+            if cl is not None:
+                cb = ctx.body(fx, cl)
+                if yields_only_live(ctx, fx, cb, cb.origins([0], through_calls=False), depth + 1):
+                    continue
+            return False
+        return False
+    return True
+
+
 def _is_op_or_wrapper(ctx, fx, x, op, depth=0):
     """the map operation itself, or a crate-local synchronous method that hands back what the map operation returned
     (`Registry::insert(&mut self, addr) -> Option<Addr<A>> { self.0.insert(..).and_then(Self::unbox) }`)"""
@@ -544,7 +667,7 @@ def check_spawn_on_demand(ctx, fx, f, b, n, inst):
     # reuse branch: get -> ... -> filter(running)
     reuse_ok = False
     # the lookup and the spawn may each sit in a synchronous helper that is lent the locked table
-    bodies = [b] + [ctx.body(fx, g_) for g_ in graph.with_forwarded(fx, f)[1:]]
+    bodies = [b] + [ctx.body(fx, g_) for g_ in graph.with_forwarded(fx, f)[1:]] + [inline.body(ctx, fx, f, inline.not_public)]
     for b_ in bodies:
         for _, t in b_.normal_calls():
             if (t.get("callee") or "").endswith("::filter") and filter_is_running(ctx, fx, b_, t):
